@@ -968,7 +968,9 @@ func (s *Server) RemoteHandshake(
 
 	// accept the client
 	s.rpcClient.Store(client)
-	s.Mach.Add1(ssS.HandshakeDone, Pass(&A{
+	// (a request proves the connection: rpc2 delivers the OnConnect event
+	// asynchronously, possibly later than the client's first calls)
+	s.Mach.Add(am.S{ssS.ClientConnected, ssS.HandshakeDone}, Pass(&A{
 		Id: *id,
 	}))
 
